@@ -30,6 +30,7 @@ type c05Cmd struct {
 type c05Schema struct {
 	N     string `json:"n"`
 	K     string `json:"k"` // "mif" | "tb" | "exempt"
+	St    string `json:"st"` // limit strategy: "" | "local" | "globalAllocate" | "globalCount"
 	Max   int32  `json:"max"`
 	QPS   int32  `json:"qps"`
 	Burst int32  `json:"burst"`
@@ -63,24 +64,23 @@ func mifSchema(name string, max int32) proxyv1alpha1.FlowControlSchema {
 }
 
 func toSchema(s c05Schema) proxyv1alpha1.FlowControlSchema {
+	out := proxyv1alpha1.FlowControlSchema{Name: s.N, Strategy: proxyv1alpha1.LimitStrategy(s.St)}
+	global := out.Strategy == proxyv1alpha1.GlobalAllocateLimit || out.Strategy == proxyv1alpha1.GlobalCountLimit
 	switch s.K {
 	case "mif":
-		return mifSchema(s.N, s.Max)
+		out.MaxRequestsInflight = &proxyv1alpha1.MaxRequestsInflightFlowControlSchema{Max: s.Max}
+		if global { // a global strategy comes with its global limit; the local limit stays the fallback
+			out.GlobalMaxRequestsInflight = &proxyv1alpha1.MaxRequestsInflightFlowControlSchema{Max: 1000}
+		}
 	case "tb":
-		return proxyv1alpha1.FlowControlSchema{
-			Name: s.N,
-			FlowControlSchemaConfiguration: proxyv1alpha1.FlowControlSchemaConfiguration{
-				TokenBucket: &proxyv1alpha1.TokenBucketFlowControlSchema{QPS: s.QPS, Burst: s.Burst},
-			},
+		out.TokenBucket = &proxyv1alpha1.TokenBucketFlowControlSchema{QPS: s.QPS, Burst: s.Burst}
+		if global {
+			out.GlobalTokenBucket = &proxyv1alpha1.TokenBucketFlowControlSchema{QPS: 100000, Burst: 100000}
 		}
 	default:
-		return proxyv1alpha1.FlowControlSchema{
-			Name: s.N,
-			FlowControlSchemaConfiguration: proxyv1alpha1.FlowControlSchemaConfiguration{
-				Exempt: &proxyv1alpha1.ExemptFlowControlSchema{},
-			},
-		}
+		out.Exempt = &proxyv1alpha1.ExemptFlowControlSchema{}
 	}
+	return out
 }
 
 // ---------------------------------------------------------------- schedules
